@@ -75,6 +75,8 @@ def canon_val(v):
     """floats -> JSON-able exact representation"""
     if isinstance(v, bool):
         return v
+    if isinstance(v, int):
+        return v        # (exact whatever its size: integer time-stamps beyond 2**53)
     if isinstance(v, (int, float)):
         if v != v:
             return 'nan'
